@@ -103,6 +103,13 @@ func genC19(t *rapid.T) C19Case {
 					default:
 						add("member-var", tn, name("mv"), global, tn+".", " = "+lit()+"\n")
 					}
+					if j < nm-1 && rapid.IntRange(0, 4).Draw(t, "reopen") == 0 {
+						// the re-open idiom between two groups of members
+						b.WriteString(tn + " = " + tn + " or {}\n")
+					}
+				}
+				if nm > 0 && rapid.IntRange(0, 4).Draw(t, "reopenEnd") == 0 {
+					b.WriteString(tn + " = " + tn + " or {}\n")
 				}
 			case 6:
 				// ---@class block followed by its variable
